@@ -24,6 +24,7 @@ mod c01;
 mod c02;
 mod c03;
 mod c04;
+mod c05;
 mod c06;
 mod c07;
 mod c08;
@@ -75,6 +76,7 @@ fn prop_fn(name: &str) -> Option<fn(&mut rep::Ctx)> {
         "c02" => c02::run,
         "c03" => c03::run,
         "c04" => c04::run,
+        "c05" => c05::run,
         "c06" => c06::run,
         "c07" => c07::run,
         "c08" => c08::run,
